@@ -81,6 +81,21 @@ func recvRunInner(c *corr.Ctx, h *RecvHistory, name string) {
 		seq uint16
 	}
 	var pending []pend // accepted into the window, not yet delivered
+	// loss-free, boundedly displaced history (hypothesis of Lean displacement_without_loss_from_init,
+	// decided on the input alone): everything must be delivered, once, in stream order, lost = 0
+	lfb := lossFreeBounded(h)
+	if lfb {
+		c.Dist("lossfree-bounded-displacement=1")
+	}
+	var allOrig []int // stream positions of everything delivered, in delivery order
+	origOfID := map[int]int{}
+	for i, id := range h.IDs {
+		if _, ok := origOfID[id]; !ok {
+			origOfID[id] = h.Orig[i]
+		}
+	}
+	// since the previous report (for the fraction-lost clause)
+	var sinceLost, sinceDelivered uint64
 	viol := func(clause, key, detail string) {
 		c.Violate(corr.Violation{Property: "C14", Clause: clause, Key: key, Where: "pkg/rtpreceiver", Input: h, Detail: detail})
 	}
@@ -207,6 +222,17 @@ func recvRunInner(c *corr.Ctx, h *RecvHistory, name string) {
 		}
 		totalDelivered += uint64(len(seqs))
 		totalLost += lost
+		sinceDelivered += uint64(len(seqs))
+		sinceLost += lost
+		if lfb {
+			for _, id := range ids {
+				allOrig = append(allOrig, origOfID[id])
+			}
+			if lost != 0 {
+				viol("a packet displaced by fewer positions than the buffer size is delivered (loss-free history: nothing is reported lost)",
+					"recv-displaced-not-delivered", fmt.Sprintf("step %d reported lost=%d in a loss-free history with displacement < %d", i, lost, h.Size))
+			}
+		}
 		if st.Received != totalDelivered || st.Lost != totalLost || (haveLast && st.LastSequenceNumber != last) {
 			viol("statistics agree with the delivery history", "recv-stats",
 				fmt.Sprintf("step %d: stats %d/%d/%d, history %d/%d/%d", i, st.Received, st.Lost, st.LastSequenceNumber, totalDelivered, totalLost, last))
@@ -253,10 +279,67 @@ func recvRunInner(c *corr.Ctx, h *RecvHistory, name string) {
 				if uint16(r.LastSequenceNumber) != last {
 					viol("receiver reports agree with the history", "recv-report", fmt.Sprintf("report last seq %d vs %d", r.LastSequenceNumber, last))
 				}
+				// fraction lost = floor(256 * lost / (delivered + lost)) over the steps since the previous
+				// report, as the floor characterisation f*rl <= 256*ls < (f+1)*rl (Lean: report_fields_history)
+				rl := sinceDelivered + sinceLost
+				f := uint64(r.FractionLost)
+				if sinceLost <= 0xFFFFFF {
+					if (rl == 0 && f != 0) || (rl != 0 && !(f*rl <= 256*sinceLost && 256*sinceLost < (f+1)*rl)) {
+						viol("receiver reports agree with the history (fraction lost since the previous report)", "recv-report-fraction",
+							fmt.Sprintf("report fraction lost %d with %d lost / %d delivered since the previous report", f, sinceLost, sinceDelivered))
+					}
+				}
+				sinceLost, sinceDelivered = 0, 0
 			}
 		}
 	}
+	if lfb {
+		ok := len(allOrig) == len(h.Seqs)
+		for k := 0; ok && k < len(allOrig); k++ {
+			ok = allOrig[k] == k
+		}
+		st := rr.Stats()
+		if !ok || st.Lost != 0 || st.Received != uint64(len(h.Seqs)) {
+			viol("a packet displaced by fewer positions than the buffer size is delivered (loss-free history: every packet delivered exactly once, in order, buffer empty at the end)",
+				"recv-displaced-not-delivered", fmt.Sprintf("delivered stream positions %v of %d arrivals, stats received=%d lost=%d", allOrig, len(h.Seqs), st.Received, st.Lost))
+		}
+	}
 	c.Add(cs)
+}
+
+// lossFreeBounded decides, on the input alone, the hypothesis of the Lean theorem
+// displacement_without_loss_from_init: unreliable mode, the first arrival is the first packet of the
+// stream, the arrivals are a permutation of the consecutive stream (no loss, no duplicate, no restart)
+// and no packet arrives before a packet Size or more positions behind it
+// (earlier arrival a, later arrival c: a < c + Size).
+func lossFreeBounded(h *RecvHistory) bool {
+	n := len(h.Seqs)
+	if !h.Unreliable || n < 2 || len(h.Orig) != n || len(h.IDs) != n || h.Orig[0] != 0 {
+		return false
+	}
+	if h.Size <= 0 || h.Size&(h.Size-1) != 0 || h.Size > 16384 {
+		return false
+	}
+	seen := make([]bool, n)
+	idSeen := make(map[int]bool, n)
+	for i := range h.Seqs {
+		o := h.Orig[i]
+		if o < 0 || o >= n || seen[o] || idSeen[h.IDs[i]] || h.Seqs[i] != h.Seqs[0]+uint16(o) {
+			return false
+		}
+		seen[o] = true
+		idSeen[h.IDs[i]] = true
+	}
+	minLater := n + h.Size // minimum stream position among the later arrivals
+	for k := n - 1; k >= 0; k-- {
+		if h.Orig[k] >= minLater+h.Size {
+			return false
+		}
+		if h.Orig[k] < minLater {
+			minLater = h.Orig[k]
+		}
+	}
+	return true
 }
 
 // restartedBetween: a restart marker occurs before arrival i (displacement is then meaningless).
@@ -325,9 +408,50 @@ func genRecvHistory(c *corr.Ctx) *RecvHistory {
 		seq++
 		id++
 	}
-	mode := r.IntN(6)
+	mode := r.IntN(7)
 	c.Dist(fmt.Sprintf("mode=%d", mode))
 	var arr []ev
+	if mode == 6 {
+		// loss-free permutation with bounded displacement: the first packet first, then always one of
+		// the not yet sent packets less than Size positions after the oldest not yet sent one (exactly
+		// the histories with: earlier arrival a, later arrival c => a < c + Size)
+		h.Unreliable = true
+		sent := make([]bool, n)
+		arr = append(arr, stream[0])
+		sent[0] = true
+		oldest := 1
+		inOrderP := r.IntN(4) // 0: as scrambled as the bound allows … 3: mostly in order
+		for len(arr) < n {
+			for oldest < n && sent[oldest] {
+				oldest++
+			}
+			k := oldest
+			if r.IntN(4) >= inOrderP {
+				hi := min(oldest+h.Size, n)
+				k = oldest + r.IntN(hi-oldest)
+				for sent[k] { // next free one at or after the draw, wrapping to the oldest
+					k++
+					if k >= hi {
+						k = oldest
+					}
+				}
+			}
+			sent[k] = true
+			arr = append(arr, stream[k])
+		}
+		for _, e := range arr {
+			h.Seqs = append(h.Seqs, e.seq)
+			h.IDs = append(h.IDs, e.id)
+			h.Orig = append(h.Orig, e.orig)
+		}
+		for i := range h.Seqs {
+			if r.IntN(25) == 0 {
+				h.ReportAt = append(h.ReportAt, i)
+			}
+		}
+		h.ReportAt = append(h.ReportAt, len(h.Seqs)-1)
+		return h
+	}
 	// loss
 	for _, e := range stream {
 		lossP := 0
@@ -407,7 +531,7 @@ func genRecvHistory(c *corr.Ctx) *RecvHistory {
 
 // Run is the domain entry point.
 func Run(c *corr.Ctx) {
-	c.Rule("arrival histories derived from an ordered sender stream (random start incl. wrap positions) by loss, bounded displacement, duplication, restart; sizes 1..512 (powers of two); reliable and unreliable; a case is non-trivial when it has more than one arrival; distinct = distinct op-line sequences")
+	c.Rule("arrival histories derived from an ordered sender stream (random start incl. wrap positions) by loss, bounded displacement, duplication, restart, plus loss-free permutations in which no packet arrives before a packet BufferSize or more positions behind it (mode 6; the displacement clause must hold on these); sizes 1..512 (powers of two); reliable and unreliable; a case is non-trivial when it has more than one arrival; distinct = distinct op-line sequences")
 	if c.Replay != nil {
 		var h RecvHistory
 		if err := json.Unmarshal(c.Replay, &h); err != nil {
@@ -419,6 +543,9 @@ func Run(c *corr.Ctx) {
 	// corpus: the design-time witness for the displacement clause
 	recvRun(c, &RecvHistory{Unreliable: true, Size: 4, Seqs: []uint16{1, 2, 4, 5, 7, 6, 8}, IDs: []int{1, 2, 4, 5, 7, 6, 8},
 		Orig: []int{0, 1, 3, 4, 6, 5, 7}, ReportAt: []int{6}}, "corpus-late-after-flush")
+	// corpus: the non-vacuity example of Lean displacement_without_loss_from_init (N = 4, across the wrap)
+	recvRun(c, &RecvHistory{Unreliable: true, Size: 4, Seqs: []uint16{65533, 0, 65534, 65535, 1, 4, 2, 3, 5},
+		IDs: []int{100, 2, 0, 1, 3, 6, 4, 5, 7}, Orig: []int{0, 3, 1, 2, 4, 7, 5, 6, 8}, ReportAt: []int{4, 8}}, "corpus-displaced-no-loss")
 	n := c.N(3000, 300000)
 	for i := 0; i < n; i++ {
 		h := genRecvHistory(c)
